@@ -2,7 +2,7 @@
 # specifications beyond the listed properties: not registered in MANIFEST.json; evidence in extra/evidence
 cd "$(dirname "$0")/.." || exit 2
 rc=0
-for m in lifecycle assisted optim; do
+for m in lifecycle assisted optim dbobservers; do
   /venv/bin/python -m extra.$m --tier "${VERIF_TIER:-quick}" || rc=$?
 done
 exit $rc
